@@ -1,6 +1,7 @@
 """C17 — parameter counts, names, vector lengths and gradient lengths always agree"""
 import itertools
 import math
+import warnings
 import numpy as np
 import pints
 
@@ -13,7 +14,9 @@ REQUIRED_THEOREMS = ['C17_hier_lengths', 'C17_grad_length', 'C17_reduced_lengths
                      'C17_labels_early_test_counterexample', 'C17_resize_state', 'C17_resize_names',
                      'C17_resize_free_count_counterexample', 'C17_top_level_names', 'C17_top_names_from_end_iff',
                      'C17_top_names_from_end_counterexample', 'C17_top_level_names_reduced', 'C17_selection_count',
-                     'C17_selection_raw_count_iff', 'C17_selection_raw_count_counterexample']
+                     'C17_selection_raw_count_iff', 'C17_selection_raw_count_counterexample', 'C17_posterior_grad_length',
+                     'C17_hier_posterior_grad_length', 'C17_hier_prior_sens_iff', 'C17_hier_prior_sens_counterexample',
+                     'C17_filter_posterior_grad_length']
 RULE = ('every kind of object (error models, population models incl. composed / covariate / reduced, individual '
         'and hierarchical likelihoods and posteriors, predictive models, SBML mechanistic models on the '
         'reference integrator) in random compositions (thorough: every composition of <=3 elementary sub-models '
@@ -23,6 +26,11 @@ RULE = ('every kind of object (error models, population models incl. composed / 
         'population parameters fixed, observed at all levels and at the top level only (with and without ID '
         'prefixes); selections of covariate-transformed parameters written as users do (any order, lists / tuples '
         '/ arrays, pairs listed repeatedly), on the covariate model itself and through the wrapper; '
+        'every likelihood and posterior class (LogLikelihood, HierarchicalLogLikelihood, LogPosterior, '
+        'HierarchicalLogPosterior, PopulationFilterLogPosterior, the controller\'s posteriors) is evaluated through '
+        'evaluateS1 inside the support AND where the score is -inf / undefined (priors mixed from unbounded, '
+        'one-sided and two-sided supports; one entry — individual-level or top-level — at 0, below 0 or far out; '
+        'all top-level entries negative): excluded by the prior, by the population model, by an error model; '
         'non-trivial = composite with >=2 sub-models or >=1 reconfiguration; distinct = (object kind, '
         'composition, reconfiguration sequence shape)')
 ASSUMPTIONS = ['names/counts/IDs are read through the public API only',
@@ -31,6 +39,75 @@ ASSUMPTIONS = ['names/counts/IDs are read through the public API only',
 TAG19 = 'C17.reduced_population_model_caches_count_before_set_n_ids'
 TAG3 = 'C17.covariate_over_pooled'
 TAG10 = 'C17.stale_name_tables_after_readministration'
+
+
+OUTSIDE = (0.0, -0.7, 1e3)
+PRIOR_KINDS = ('Gaussian', 'Uniform', 'LogNormal', 'HalfCauchy')
+
+
+def mixed_prior(rng, n):
+    """one prior per parameter: unbounded (Gaussian — the likelihood's own guards are reached), bounded on both
+    sides (uniform), bounded on the left (log-normal, half-Cauchy)"""
+    kinds = [PRIOR_KINDS[int(rng.integers(len(PRIOR_KINDS)))] for _ in range(n)]
+    mk = {'Gaussian': lambda: pints.GaussianLogPrior(1, 1), 'Uniform': lambda: pints.UniformLogPrior(0.01, 10),
+          'LogNormal': lambda: pints.LogNormalLogPrior(0, 0.5), 'HalfCauchy': lambda: pints.HalfCauchyLogPrior(0, 1)}
+    ps = [mk[k]() for k in kinds]
+    return (pints.ComposedLogPrior(*ps) if n > 1 else ps[0]), kinds
+
+
+def gradient_length_everywhere(ctx, obj, tag, rng, inp, top=None, prior=None, k=3, kind=None):
+    """evaluateS1()[1] has n_parameters() entries at EVERY vector of the reported length — inside the support and
+    where the score is -inf / undefined: an entry outside the support of the prior, a population scale or an error
+    scale at or below zero, a value far outside (what a gradient-based sampler or optimiser meets when a proposal
+    leaves the support). `top`: positions of the top-level entries (where the prior lives); `prior`: the prior the
+    caller built the object from (only to tell which part excluded the point, for the coverage record)."""
+    try:
+        n = int(obj.n_parameters())
+    except Exception as e:  # noqa
+        ctx.spec(tag + '.raises', False, inp, {'raised': repr(e)[:200]})
+        return
+    if n == 0:
+        return
+    top = list(range(n)) if top is None else [int(j) for j in top]
+    base = rng.uniform(0.6, 1.4, n)
+    pts = [('inside', base)]
+    pos = set(int(j) for j in rng.permutation(n)[:max(k - 1, 1)])
+    if top:
+        pos.add(int(top[int(rng.integers(len(top)))]))
+    for j in sorted(pos):
+        x = base.copy()
+        x[j] = float(OUTSIDE[int(rng.integers(len(OUTSIDE)))])
+        pts.append(('entry %d = %g' % (j, x[j]), x))
+    if len(top) > 1 and rng.random() < 0.4:
+        x = base.copy()
+        x[top] = -0.7
+        pts.append(('all top-level entries = -0.7', x))
+    for where, x in pts:
+        pin = dict(inp, evaluated_at=where, x=x)
+        try:
+            with np.errstate(all='ignore'), warnings.catch_warnings():
+                warnings.simplefilter('ignore')
+                v = obj(x.copy())
+                s, g = obj.evaluateS1(x.copy())
+        except Exception as e:  # noqa
+            ctx.spec(tag + '.accepts_vector_of_reported_length', False, pin, {'raised': repr(e)[:200]})
+            continue
+        finite = bool(np.isfinite(v))
+        shape = list(np.shape(np.asarray(g)))
+        suffix = '' if finite else ('_where_score_is_minus_inf' if v == -np.inf else '_where_score_is_undefined')
+        ctx.spec(tag + '.gradient_length' + suffix, shape == [n], pin,
+                 {'gradient_shape': shape, 'n_parameters': n, 'score': float(v)})
+        excluded_by = None
+        if not finite:
+            excluded_by = 'likelihood'
+            if prior is not None:
+                with np.errstate(all='ignore'):
+                    if not np.isfinite(prior(x[top])):
+                        excluded_by = 'prior'
+            ctx.branches.add('%s/%s/excluded-by-%s' % (suffix[7:], tag[4:], excluded_by))
+        if kind is not None and prior is not None:
+            mo = ctx.model('C17.posteriorS1', kind, n - len(top), len(top), excluded_by == 'prior')
+            ctx.agree('C17.posteriorS1.gradient_length', len(g), mo[0], pin)
 
 
 def stable_queries(ctx, tag, obj, inp, names_fn='get_parameter_names', count_fn='n_parameters'):
@@ -383,6 +460,8 @@ def likelihood_objects(ctx, chi, rng, i):
     except Exception as e:  # noqa
         ctx.spec('C17.LogLikelihood.accepts_vector_of_reported_length', False, inp, {'raised': repr(e)[:200]})
     ctx.spec('C17.LogLikelihood.names_distinct', len(set(names)) == len(names), inp, {'names': names})
+    if any(nm.startswith('psi') for nm in names):
+        gradient_length_everywhere(ctx, ll, 'C17.LogLikelihood', rng, {k_: v_ for k_, v_ in inp.items() if k_ != 'x'}, k=2)
     # gradient length after a fix -> evaluateS1 -> release -> evaluateS1 sequence
     if seq and rng.random() < 0.6:
         try:
@@ -402,6 +481,14 @@ def likelihood_objects(ctx, chi, rng, i):
         post = chi.LogPosterior(ll, prior)
         ctx.spec('C17.LogPosterior.count_eq_names',
                  post.n_parameters() == len(post.get_parameter_names()) == n, inp)
+        if any(nm.startswith('psi') for nm in ll.get_parameter_names()):
+            # the same likelihood under priors with bounded supports, evaluated inside and outside of them
+            prior, pk = mixed_prior(rng, n)
+            post = chi.LogPosterior(ll, prior)
+            pin = dict(inp, object='LogPosterior', priors=pk)
+            ctx.spec('C17.LogPosterior.count_eq_names',
+                     post.n_parameters() == len(post.get_parameter_names()) == n, pin)
+            gradient_length_everywhere(ctx, post, 'C17.LogPosterior', rng, pin, prior=prior, k=2, kind='plain')
 
 
 def pre_reduced_error_models(ctx, chi, rng, i):
@@ -480,6 +567,8 @@ def filter_posterior_objects(ctx, chi, rng, i):
             post(x)
             _, g = post.evaluateS1(x)
         ctx.spec('C17.FilterPosterior.gradient_length', len(g) == n, inp, {'len': len(g), 'n': n})
+        gradient_length_everywhere(ctx, post, 'C17.FilterPosterior', rng, inp, top=range(nt), prior=c.prior, k=3,
+                                   kind='filter')
     except Exception as e:  # noqa
         ctx.spec('C17.FilterPosterior.raises', False, inp, {'raised': repr(e)[:200]})
 
@@ -549,8 +638,9 @@ def controller_objects(ctx, chi, rng, i):
         ctx.spec('C17.Controller.count_eq_names', names == free and c.get_n_parameters() == len(free),
                  dict(inp, sequence=seq, fixed=fixed), {'names': names, 'expected': free})
         n = len(free)
-        c.set_log_prior(pints.ComposedLogPrior(*[pints.UniformLogPrior(0, 10) for _ in range(n)]) if n > 1
-                        else pints.UniformLogPrior(0, 10))
+        c_prior = pints.ComposedLogPrior(*[pints.UniformLogPrior(0, 10) for _ in range(n)]) if n > 1 \
+            else pints.UniformLogPrior(0, 10)
+        c.set_log_prior(c_prior)
         stable_queries(ctx, 'C17.Controller', c, dict(inp, sequence=seq), count_fn='get_n_parameters')
         post = c.get_log_posterior(individual='p0')
         stable_queries(ctx, 'C17.LogPosterior', post, dict(inp, sequence=seq))
@@ -560,6 +650,9 @@ def controller_objects(ctx, chi, rng, i):
         with np.errstate(all='ignore'):
             post(x)
             _, g = post.evaluateS1(x) if any(nm.startswith('psi') for nm in free) else (None, np.zeros(n))
+        if any(nm.startswith('psi') for nm in free):
+            gradient_length_everywhere(ctx, post, 'C17.Controller.posterior', rng, dict(inp, sequence=seq, fixed=fixed),
+                                       prior=c_prior, k=2, kind='plain')
         ctx.spec('C17.Controller.posterior_lengths', post.n_parameters() == n == len(post.get_parameter_names()) == len(g)
                  and list(post.get_parameter_names()) == free, dict(inp, sequence=seq, fixed=fixed),
                  {'posterior_names': list(post.get_parameter_names()), 'expected': free})
@@ -571,8 +664,9 @@ def controller_objects(ctx, chi, rng, i):
         ctx.spec('C17.Controller.count_eq_names', c.get_n_parameters() == len(pn) and len(set(pn)) == len(pn),
                  dict(inp, sequence=seq), {'names': pn, 'n': c.get_n_parameters()})
         nt = len(pn)
-        c.set_log_prior(pints.ComposedLogPrior(*[pints.LogNormalLogPrior(0, 0.3) for _ in range(nt)]) if nt > 1
-                        else pints.LogNormalLogPrior(0, 0.3))
+        h_prior = pints.ComposedLogPrior(*[pints.LogNormalLogPrior(0, 0.3) for _ in range(nt)]) if nt > 1 \
+            else pints.LogNormalLogPrior(0, 0.3)
+        c.set_log_prior(h_prior)
         hp = c.get_log_posterior()
         m = hp.n_parameters()
         ids = hp.get_id()
@@ -588,6 +682,8 @@ def controller_objects(ctx, chi, rng, i):
             hp(xs)
             _, g = hp.evaluateS1(xs)
         ctx.spec('C17.Controller.hierarchical_posterior_lengths', len(g) == m, dict(inp, sequence=seq), {'len': len(g)})
+        gradient_length_everywhere(ctx, hp, 'C17.Controller.hierarchical_posterior', rng, dict(inp, sequence=seq),
+                                   top=range(m - nt, m), prior=h_prior, k=2, kind='hierarchical')
     except Exception as e:  # noqa
         ctx.spec('C17.Controller.raises', False, inp, {'raised': repr(e)[:300]})
 
@@ -845,6 +941,8 @@ def hier_objects(ctx, chi, rng, i, subs=None, n_ids=None):
                 ctx.spec('C17.Hierarchical.gradient_length', len(g) == n, inp, {'len': len(g), 'n': n})
     except Exception as e:  # noqa
         ctx.spec('C17.Hierarchical.accepts_vector_of_reported_length', False, inp, {'raised': repr(e)[:200]})
+    hin = {k_: v_ for k_, v_ in inp.items() if k_ != 'x'}
+    gradient_length_everywhere(ctx, hll, 'C17.Hierarchical', rng, hin, top=range(n - nt, n), k=2)
     if nt > 0:
         prior = pints.ComposedLogPrior(*[pints.GaussianLogPrior(1, 1) for _ in range(nt)]) if nt > 1 \
             else pints.GaussianLogPrior(1, 1)
@@ -854,6 +952,17 @@ def hier_objects(ctx, chi, rng, i, subs=None, n_ids=None):
         top_level_names(ctx, post, 'C17.HierarchicalLogPosterior', subs, effective, lls[0].get_parameter_names(),
                         [nm for nm in full_top if nm not in fixed] if fixed else list(pm.get_parameter_names()), inp,
                         model=False)
+        # the posterior under priors with bounded supports, evaluated inside and outside of them (and where the
+        # population model or an error model excludes the point)
+        prior, pk = mixed_prior(rng, nt)
+        post = chi.HierarchicalLogPosterior(hll, prior)
+        pin = dict(inp, object='HierarchicalLogPosterior', priors=pk)
+        pin.pop('x', None)
+        m = post.n_parameters()
+        ctx.spec('C17.HierarchicalLogPosterior.count_eq_names_eq_ids',
+                 m == len(post.get_parameter_names()) == len(post.get_id()) == n, pin)
+        gradient_length_everywhere(ctx, post, 'C17.HierarchicalLogPosterior', rng, pin, top=range(m - nt, m),
+                                   prior=prior, k=3, kind='hierarchical')
 
 
 def predictive_objects(ctx, chi, rng, i):
